@@ -58,6 +58,24 @@ class C09(WigBedProp):
                  "pass": r.choice([1, 2]), "inmem": 0 if k3 % 3 else 1, "rt": "mt", "threads": r.choice([2, 4]), "chan": r.choice([0, 1, 100]),
                  "src": r.choice(["iter", "par"]), "sort": "all", "delay": r.range(1, 1 << 30)}
             out.append(CaseT(f"spill{k3}", kind, [], [bbgen.opt_line(o)] + lines, self.common_tags(o, names, data, {kind, "chromosomes_spill_bufwriter"})))
+        # a zoom pyramid as deep as the data allows: one item per section, items thinning out geometrically over a 4 Gb chromosome, so
+        # that every automatic level has fewer sections than the one before and none is pruned — with max_zooms above the ten slots
+        # of the zoom directory
+        for k5, kind in enumerate(("bed", "wig", "bed")):
+            r = rng.fork(f"pyramid{k5}")
+            pos = [0] + [200 * 4 ** j for j in range(13)]
+            names, sizes = ["chr1"], {"chr1": 4294967295}
+            o = bbgen.gen_options(r, tier)
+            o.update({"ips": 1, "bs": r.choice([2, 256]), "zooms": "auto", "izs": r.choice([64, 160]), "nzooms": r.choice([11, 12, 15]),
+                      "pass": 1 + (k5 + (1 if tier == "thorough" else 0)) % 2, "src": "iter", "sort": "all", "compress": 0})
+            if kind == "wig":
+                data = {"chr1": [(p_, p_ + 50, bbgen.f32bits(float(1 + i % 5))) for i, p_ in enumerate(pos)]}
+                lines = bbgen.wig_lines(names, sizes, data)
+            else:
+                # entries with a long name: the data must stay larger than twice a zoom level for the level to be kept
+                data = {"chr1": [(p_, p_ + 1, "n" * 60 + "\t%d" % i) for i, p_ in enumerate(pos)]}
+                lines = bbgen.bed_lines(names, sizes, data)
+            out.append(CaseT(f"pyramid{k5}", kind, [], [bbgen.opt_line(o)] + lines, self.common_tags(o, names, data, {kind, "deep_zoom_pyramid"})))
         # items_per_slot beyond the 16-bit item count of a bigWig section header, with a chromosome that has more items than that
         for k4, kind in enumerate(("wig", "bed") if tier == "thorough" else ("wig",)):
             r = rng.fork(f"ipsbig{k4}")
